@@ -91,16 +91,10 @@ impl TBS {
         rdatas.sort();
         rdatas.dedup();
 
-        // TODO: rather than buffering here, use the Signer/Verifier? might mean fewer allocations...
-        let mut buf = Vec::new();
-        let mut encoder = BinEncoder::new(&mut buf);
-        // Encode records using DNSSEC canonical form. This affects how names inside RDATA are
-        // encoded.
-        encoder.canonical_form = true;
-        // Disable name compression. Encoding of other fields may switch to use lowercase names
-        // as well.
-        encoder.name_encoding = NameEncoding::Uncompressed;
-
+        // The signed data may be longer than a DNS message (names are expanded, the owner is
+        // repeated for every RR), so it is assembled in a plain buffer; only the two fixed parts go
+        // through a message encoder, which is limited to 65,535 octets.
+        //
         //          signed_data = RRSIG_RDATA | RR(1) | RR(2)...  where
         //
         //             "|" denotes concatenation
@@ -108,35 +102,43 @@ impl TBS {
         //             RRSIG_RDATA is the wire format of the RRSIG RDATA fields
         //                with the Signature field excluded and the Signer's Name
         //                in canonical form.
-        input.emit(&mut encoder)?;
+        let mut buf = Vec::new();
+        {
+            let mut encoder = BinEncoder::new(&mut buf);
+            encoder.canonical_form = true;
+            encoder.name_encoding = NameEncoding::Uncompressed;
+            input.emit(&mut encoder)?;
+        }
 
-        // construct the rrset signing data
-        for rdata in rdatas {
-            //             RR(i) = name | type | class | OrigTTL | RDATA length | RDATA
-            //
-            //                name is calculated according to the function in the RFC 4035
+        //             RR(i) = name | type | class | OrigTTL | RDATA length | RDATA
+        //
+        //                name is calculated according to the function in the RFC 4035,
+        //                type is the RRset type, class is the RRset's class, OrigTTL is the
+        //                value from the RRSIG Original TTL field: the same for every RR(i)
+        let mut rr_head = Vec::new();
+        {
+            let mut encoder = BinEncoder::new(&mut rr_head);
+            encoder.canonical_form = true;
+            encoder.name_encoding = NameEncoding::Uncompressed;
             {
                 let mut encoder_name =
                     encoder.with_name_encoding(NameEncoding::UncompressedLowercase);
                 name.emit(&mut encoder_name)?;
             }
-            //
-            //                type is the RRset type and all RRs in the class
             input.type_covered.emit(&mut encoder)?;
-            //
-            //                class is the RRset's class
             dns_class.emit(&mut encoder)?;
-            //
-            //                OrigTTL is the value from the RRSIG Original TTL field
             input.original_ttl.emit(&mut encoder)?;
-            //
+        }
+
+        // construct the rrset signing data
+        for rdata in rdatas {
             //                RDATA length
             let length = u16::try_from(rdata.len())
                 .map_err(|_| ProtoError::from("RDATA length exceeds u16::MAX"))?;
-            length.emit(&mut encoder)?;
-            //
+            buf.extend_from_slice(&rr_head);
+            buf.extend_from_slice(&length.to_be_bytes());
             //                All names in the RDATA field are in canonical form (see above)
-            encoder.emit_slice(&rdata)?;
+            buf.extend_from_slice(&rdata);
         }
 
         Ok(Self(buf))
